@@ -1,41 +1,59 @@
 #!/usr/bin/env python3
-"""Re-run all checks against every stored seeded change and update meta.json; print a table."""
+"""Re-run all checks against every stored seeded change (8 at a time) and update meta.json; print a table.
+usage: seed_recheck.py [id-prefix ...]"""
 import contextlib, io, json, os, shutil, subprocess, sys, tempfile
+from concurrent.futures import ProcessPoolExecutor
 VERIF = os.path.abspath(os.path.join(os.path.dirname(__file__), ".."))
 sys.path.insert(0, os.path.join(VERIF, "engine"))
 from mhsa import runner
-only = sys.argv[1:] 
-rows = []
-for sid in sorted(os.listdir(os.path.join(VERIF, "seeded"))):
+
+
+def job(sid):
     d = os.path.join(VERIF, "seeded", sid)
-    if only and not any(sid.startswith(o) for o in only):
-        continue
-    meta = json.load(open(os.path.join(d, "meta.json")))
     tmp = tempfile.mkdtemp(prefix="seedre.")
     root = os.path.join(tmp, "repo")
-    subprocess.check_call(["rsync", "-a", "--exclude", "target", "--exclude", ".git", "/repo/", root + "/"])
-    subprocess.check_call(["git", "init", "-q"], cwd=root)
-    r = subprocess.run(["git", "apply", os.path.join(d, "patch.diff")], cwd=root)
     fired = {}
-    if r.returncode == 0:
-        try:
-            etmp, facts = runner.extract(root)
-            for i in range(1, 19):
-                p = "C%02d" % i
-                with contextlib.redirect_stdout(io.StringIO()):
-                    rc, ctx = runner.run_property(p, "quick", facts, write_evidence=False, repo=root, quiet=True)
-                v = sorted({o.rule for o in ctx.obs if not o.ok})
-                if v:
-                    fired[p] = v
-            shutil.rmtree(etmp, ignore_errors=True)
-        except runner.InfraError as e:
-            fired = {"ERROR": str(e)[-200:]}
-    else:
-        fired = {"ERROR": "patch does not apply to the current /repo"}
-    shutil.rmtree(tmp, ignore_errors=True)
-    meta["checks_that_report_it"] = fired
-    meta["caught_by_own_property"] = meta["property"] in fired
-    json.dump(meta, open(os.path.join(d, "meta.json"), "w"), indent=1)
-    rows.append((sid, meta["property"], meta["caught_by_own_property"], fired))
-    print("%-40s own=%-5s %s" % (sid, meta["caught_by_own_property"], fired))
-print("%d seeds, %d caught by their own property's check, %d caught by some check" % (len(rows), sum(1 for r in rows if r[2]), sum(1 for r in rows if r[3] and "ERROR" not in r[3])))
+    try:
+        subprocess.check_call(["rsync", "-a", "--exclude", "target", "--exclude", ".git", "/repo/", root + "/"])
+        subprocess.check_call(["git", "init", "-q"], cwd=root)
+        r = subprocess.run(["git", "apply", os.path.join(d, "patch.diff")], cwd=root)
+        if r.returncode == 0:
+            try:
+                etmp, facts = runner.extract(root)
+                for i in range(1, 19):
+                    p = "C%02d" % i
+                    with contextlib.redirect_stdout(io.StringIO()):
+                        rc, ctx = runner.run_property(p, "quick", facts, write_evidence=False, repo=root, quiet=True)
+                    v = sorted({o.rule for o in ctx.obs if not o.ok})
+                    if v:
+                        fired[p] = v
+                shutil.rmtree(etmp, ignore_errors=True)
+            except runner.InfraError as e:
+                fired = {"ERROR": str(e)[-200:]}
+        else:
+            fired = {"ERROR": "patch does not apply to the current /repo"}
+    except Exception as e:      # noqa
+        fired = {"ERROR": repr(e)[-200:]}
+    finally:
+        shutil.rmtree(tmp, ignore_errors=True)
+    return sid, fired
+
+
+def main():
+    only = sys.argv[1:]
+    ids = [s for s in sorted(os.listdir(os.path.join(VERIF, "seeded"))) if not only or any(s.startswith(o) for o in only)]
+    rows = []
+    with ProcessPoolExecutor(8) as ex:
+        for sid, fired in ex.map(job, ids):
+            mp = os.path.join(VERIF, "seeded", sid, "meta.json")
+            meta = json.load(open(mp))
+            meta["checks_that_report_it"] = fired
+            meta["caught_by_own_property"] = meta["property"] in fired
+            json.dump(meta, open(mp, "w"), indent=1)
+            rows.append((sid, meta["property"], meta["caught_by_own_property"], fired))
+            print("%-40s own=%-5s %s" % (sid, meta["caught_by_own_property"], fired), flush=True)
+    print("%d seeds, %d caught by their own property's check, %d caught by some check" % (len(rows), sum(1 for r in rows if r[2]), sum(1 for r in rows if r[3] and "ERROR" not in r[3])))
+
+
+if __name__ == "__main__":
+    main()
